@@ -62,7 +62,13 @@ func TypeSwitchCovers(r *core.Run, rel, fn, ifacePkg, ifaceName string, allow ma
 	}
 	info := pk.TypesInfo
 	nsw := 0
-	ast.Inspect(fd.Body, func(n ast.Node) bool {
+	// the function itself; when it has no such switch (it was moved into a
+	// helper), the same-package helpers it calls
+	var root ast.Node = fd.Body
+	if !hasTypeSwitchOver(info, fd.Body, it) {
+		root = core.TreeBody(pk, fd)
+	}
+	ast.Inspect(root, func(n ast.Node) bool {
 		ts, ok := n.(*ast.TypeSwitchStmt)
 		if !ok {
 			return true
@@ -131,7 +137,20 @@ func ConstSwitchCovers(r *core.Run, rel, fn, typePkg, typeName string, allow map
 	}
 	info := pk.TypesInfo
 	nsw := 0
+	var root ast.Node = fd.Body
+	own := 0
 	ast.Inspect(fd.Body, func(n ast.Node) bool {
+		if sw, ok := n.(*ast.SwitchStmt); ok && sw.Tag != nil {
+			if t := info.TypeOf(sw.Tag); t != nil && types.Identical(t, tn) {
+				own++
+			}
+		}
+		return true
+	})
+	if own < minSwitches {
+		root = core.TreeBody(pk, fd) // some were moved into helpers
+	}
+	ast.Inspect(root, func(n ast.Node) bool {
 		sw, ok := n.(*ast.SwitchStmt)
 		if !ok || sw.Tag == nil {
 			return true
@@ -391,4 +410,17 @@ func ProducerConsumer(r *core.Run, prodRel, prodFn string, idx int, consRel, con
 	if len(names) == 0 {
 		r.Fatal("R-EXH/X3: producer %s.%s yields no concrete types", prodRel, prodFn)
 	}
+}
+
+func hasTypeSwitchOver(info *types.Info, body ast.Node, it types.Type) bool {
+	found := false
+	ast.Inspect(body, func(n ast.Node) bool {
+		if ts, ok := n.(*ast.TypeSwitchStmt); ok {
+			if st := subjectType(info, ts); st != nil && types.Identical(st, it) {
+				found = true
+			}
+		}
+		return true
+	})
+	return found
 }
